@@ -1,4 +1,5 @@
 """C03 - sequential programs give the same result under any schedule.  spec/Pipeline.tla (+ RunModes.tla)."""
+import json
 import os
 import random
 from vlib import common, prog
@@ -13,6 +14,10 @@ STAGE = {
     'dup': 'foreach v%d { out $v%d; out $v%d }',
     'tac': 'mtac',
     'errtee': 'foreach v%d { err "e$v%d"; out $v%d }',
+    'cast': 'cast str',
+    'ifa': 'foreach v%d { if { $v%d == "a" } then { out A } else { out $v%d } }',
+    'sw': 'foreach v%d { switch $v%d { case "b" { out B }; default { out $v%d } } }',
+    'var': 'foreach v%d { w%d = "v$(v%d)"; w%d = "$(w%d)v"; out $w%d }',
 }
 
 
@@ -36,7 +41,7 @@ def text(lines):
 
 def run(ck, replay=None):
     quick = ck.tier == 'quick'
-    K = 6 if quick else 40
+    K = 4 if quick else 40
     ck.cov['rule'] = ('TLC explores every interleaving of the stage processes of every pipeline (source of <=2 lines, <=3 stages from '
                       'map / function / duplicate / reverse(aggregating) / stderr-tee, channel capacity 1) and checks termination, no deadlock '
                       'and final output = the sequential meaning Seq(P); the table of programs (every pipeline, plus pairs joined by ;) with '
@@ -44,7 +49,7 @@ def run(ck, replay=None):
                       'hook points (process start/teardown, every pipe lock region), and stdout, stderr and exit number of every run must equal '
                       'Seq(P); the C04/C05 chain programs (operators ; && || | in normal/try/trypipe mode) are re-run the same way.  '
                       'non-trivial = at least two concurrent stages or a conditional operator; distinct = different programs.' % K)
-    ck.assumptions += ['vocabulary: a (mkarray), foreach, out, err, mtac, functions, ; newline && || try trypipe - no bg, timers or randomness',
+    ck.assumptions += ['vocabulary: a (mkarray), foreach, out, err, mtac, cast, if/else, switch, variables and string expressions, functions, ; newline && || try trypipe - no bg, timers or randomness',
                        'at most one stage of a pipeline writes to the shared stderr (otherwise interleaving there is by design)',
                        'concurrent stages use distinct variable names (blocks share the enclosing function\'s variables, C11)',
                        'a run that does not return within 20 s is a hang']
@@ -69,6 +74,19 @@ def run(ck, replay=None):
     mc['MCPipelineGen.cfg'] = [r.distinct, r.generated]
     ck.cov['model_checking_runs'] = mc
     cases = common.read_ndjson(os.path.join(wd, 'cases.ndjson'))
+    # the wider vocabulary (cast, if, switch, variables/expressions) at <=2 stages
+    wd2 = os.path.join(ck.scratch, 'gen2')
+    r = common.tlc('PipelineGen', 'MCPipelineGen2.cfg', wd2, timeout=3000)
+    if r.violated:
+        raise common.Infra('Pipeline.tla violates %s (MCPipelineGen2): the specification is wrong\n%s' % (r.violated, r.out[-3000:]))
+    ck.add_tlc(r)
+    mc['MCPipelineGen2.cfg'] = [r.distinct, r.generated]
+    seen = set(json.dumps(c['prog'], sort_keys=True) for c in cases)
+    for c in common.read_ndjson(os.path.join(wd2, 'cases.ndjson')):
+        k = json.dumps(c['prog'], sort_keys=True)
+        if k not in seen:
+            seen.add(k)
+            cases.append(c)
     rng = random.Random(ck.seed)
     jobs = []
     meta = {}
